@@ -49,11 +49,11 @@ func TestVerif_C02_Sim(t *testing.T) {
 	}
 	budget := 60 * time.Second
 	if vr.Thorough() {
-		budget = 5 * time.Minute
+		budget = 3 * time.Minute
 	}
 	for _, c := range cfgs {
 		// the wall budget is only tested between levels: the level-size cap is what bounds a level's cost
-		simExplore(t, r, simExploreCfg{Scenario: "routes", Arg: c.arg, Depth: c.depth, Budget: budget, MaxLevel: 60000})
+		simExplore(t, r, simExploreCfg{Scenario: "routes", Arg: c.arg, Depth: c.depth, Budget: budget, MaxLevel: 40000})
 	}
 	if r.Outcomes["Loc-RIB-compared"] == 0 || r.States < 100 {
 		t.Fatalf("ENGINE-ERROR vacuous exploration")
